@@ -103,6 +103,31 @@ func negotiator(kind string) func(httphead.Option) (httphead.Option, error) {
 	case "negotiate-wsflate":
 		e := &wsflate.Extension{Parameters: wsflate.Parameters{ServerNoContextTakeover: true, ClientNoContextTakeover: true}}
 		return e.Negotiate
+	// servers whose answer is not the offer: the bare name, only the offer's first parameter, parameters of its own
+	case "negotiate-bare":
+		return func(o httphead.Option) (httphead.Option, error) {
+			return httphead.Option{Name: append([]byte(nil), o.Name...)}, nil
+		}
+	case "negotiate-first-param":
+		return func(o httphead.Option) (httphead.Option, error) {
+			r := httphead.Option{Name: append([]byte(nil), o.Name...)}
+			done := false
+			o.Parameters.ForEach(func(k, v []byte) bool {
+				if !done {
+					r.Parameters.Set(append([]byte(nil), k...), append([]byte(nil), v...))
+					done = true
+				}
+				return true
+			})
+			return r, nil
+		}
+	case "negotiate-own-params":
+		return func(o httphead.Option) (httphead.Option, error) {
+			r := httphead.Option{Name: append([]byte(nil), o.Name...)}
+			r.Parameters.Set([]byte("server_no_context_takeover"), nil)
+			r.Parameters.Set([]byte("client_max_window_bits"), []byte("9"))
+			return r, nil
+		}
 	}
 	return nil
 }
@@ -283,7 +308,7 @@ var (
 	protoSels  = []string{"nil", "none", "all", "slice", "exact-last", "exact-second"}
 	extOffers  = [][]string{nil, {"permessage-deflate; client_max_window_bits; server_no_context_takeover"}, {"permessage-deflate", "permessage-deflate; server_max_window_bits=10"}, {"x-unknown; p=1", "permessage-deflate; client_no_context_takeover"},
 		{"x-a; p=1", "x-bb; q=22; r", "permessage-deflate", "x-cccc; s=\"t u\"", "x-d"}}
-	extSels    = []string{"nil", "extension-all", "extension-none", "negotiate-accept", "negotiate-decline", "negotiate-error", "negotiate-wsflate"}
+	extSels    = []string{"nil", "extension-all", "extension-none", "negotiate-accept", "negotiate-decline", "negotiate-error", "negotiate-wsflate", "negotiate-bare", "negotiate-first-param", "negotiate-own-params"}
 	bufs       = []int{0, 16, 17, 64, 256, 4096}
 )
 
@@ -298,7 +323,7 @@ func subPairs() mon.Sub {
 		},
 		Do: func(c *mon.C) {
 			i := c.I
-			cfg := pairCfg{Protocols: protoLists[i%8], ProtoSel: protoSels[i/8%6], ExtOffer: extOffers[i/48%len(extOffers)], ExtSel: extSels[i/192%7]}
+			cfg := pairCfg{Protocols: protoLists[i%8], ProtoSel: protoSels[i/8%6], ExtOffer: extOffers[(i/48+i/1920)%len(extOffers)], ExtSel: extSels[i/192%len(extSels)]}
 			cfg.CRBuf, cfg.CWBuf = bufs[c.Rng.Intn(len(bufs))], bufs[c.Rng.Intn(len(bufs))]
 			cfg.SRBuf, cfg.SWBuf = bufs[c.Rng.Intn(len(bufs))], bufs[c.Rng.Intn(len(bufs))]
 			lim := []int{0, 1, 2, 13, -1}
@@ -881,7 +906,7 @@ func main() {
 	mon.Main(&mon.Spec{
 		Property: "C11",
 		Level:    "exploration",
-		Rule: "(pair) library dialer <-> library upgrader (ws.Upgrader, and ws.HTTPUpgrader behind net/http) over an in-memory duplex, two goroutines, configurations = 8 protocol lists (incl. names differing only in case, prefixes of each other) x 6 selectors (incl. exactly the last / second offered name) x 4 extension offers x 7 extension selectors/negotiators x I/O buffer sizes {0,16,17,64,256,4096} on each side x read limiters {none,1,2,13,random} x extra header lines of length buf-2..buf+2 and 3*buf: both succeed with equal protocol/extensions or both fail. " +
+		Rule: "(pair) library dialer <-> library upgrader (ws.Upgrader, and ws.HTTPUpgrader behind net/http) over an in-memory duplex, two goroutines, configurations = 8 protocol lists (incl. names differing only in case, prefixes of each other) x 6 selectors (incl. exactly the last / second offered name) x 5 extension offers x 10 extension selectors/negotiators (incl. servers answering with the bare name, with the offer's first parameter only, with parameters of their own) x I/O buffer sizes {0,16,17,64,256,4096} on each side x read limiters {none,1,2,13,random} x extra header lines of length buf-2..buf+2 and 3*buf: both succeed with equal protocol/extensions or both fail. " +
 			"(single peer) the same request / response derivation run under 5 chunk plans and buffer sizes must give identical outcome, handshake data and bytes written (dialer requests compared with the random key masked). (debug wrappers) DebugUpgrader / DebugDialer with each callback combination vs the unwrapped run: same outcome and data, callbacks get exactly the bytes exchanged, post-handshake bytes preserved, each DebugDialer value used for three dials in a row with and without an application WrapConn, one case in five over wss:// (the library's TLS client against a crypto/tls server on an in-memory duplex: the callbacks must see the HTTP exchange, not TLS records); responses: valid 101 with trailing frames {0,1,100,5000}, non-101 with bodies, invalid 101, LF-only, empty/truncated. distinct = configuration classes.",
 		Assumptions: []string{"a pair stuck for 60 s is inconclusive, not a violation", "requests that net/http itself refuses are not sent through DebugUpgrader"},
 		Subs:        []mon.Sub{subPairs(), subUpgraderChunking(), subDialerChunking(), subDebugUpgrader(), subDebugDialer()},
